@@ -1,6 +1,7 @@
 # SPDX-License-Identifier: AGPL-3.0
 
 import argparse
+import math
 import os
 import re
 import shlex
@@ -105,7 +106,10 @@ class ParseTimeout(argparse.Action):
     @staticmethod
     def parse(values: str) -> float:
         # keeping ms as the default unit for backward compatibility
-        return parse_time(values, default_unit="ms")
+        timeout = parse_time(values, default_unit="ms")
+        if not math.isfinite(timeout) or timeout < 0:
+            raise ValueError(f"invalid timeout: {values}")
+        return timeout
 
     @staticmethod
     def unparse(value: float) -> str:
@@ -146,7 +150,10 @@ class ParseCSVInt(argparse.Action):
 
     @staticmethod
     def parse(values: str) -> list[int]:
-        return ensure_non_empty([int(x) for x in parse_csv(values)])
+        result = ensure_non_empty([int(x) for x in parse_csv(values)])
+        if any(x < 0 for x in result):
+            raise ValueError(f"negative value in: {values}")
+        return result
 
     @staticmethod
     def unparse(values: list[int]) -> str:
@@ -166,7 +173,10 @@ class ParseErrorCodes(argparse.Action):
             return set()
 
         # support multiple bases: decimal, hex, etc.
-        return ensure_non_empty(set(int(x, 0) for x in parse_csv(values)))
+        codes = ensure_non_empty(set(int(x, 0) for x in parse_csv(values)))
+        if any(not (0 <= code < 2**256) for code in codes):
+            raise ValueError(f"invalid error code in: {values}")
+        return codes
 
     @staticmethod
     def unparse(values: set[int]) -> str:
